@@ -418,6 +418,12 @@ def r03_7(ctx) -> None:
 
 
 def run(ctx) -> None:
+    from .c14 import r14_2 as _r14_2
+    from .common import JWS_CONSUME as _JC, JWS_PRODUCE as _JP, entries as _entries, scope_of as _scope_of
+    _within = set()
+    for _e in _entries(ctx.eng, _JC + _JP):
+        _within.update(_scope_of(ctx.eng, _e))
+    ctx.guard_as("R03.15", _r14_2, within=_within)  # a key picked from a set for signing leaves its kid in the token (the verifier's set finds it), whatever the size of the set
     from .common import member_crossing
     ctx.guard(member_crossing, "R03.14", "jws")  # named members are filled from the value of the same name (generic crossing rule, rules/common.py)
     from .common import forwarding_discipline
